@@ -205,6 +205,37 @@ def _ref_graph_docs(n):
             yield f"{table}:" + ",".join(f"{nm}>{t}" for nm, t in zip(names, targets)), gen.base_doc(None, paths=paths({"$ref": f"#/components/{table}/A"}), components={table: comps})
 
 
+def _schema_ring_docs(n):
+    """Every functional graph over n MODEL schemas (each refers to one of the n, itself included, or to nothing) x how the reference is made
+    (property, array items, additionalProperties, union member) x one model made to fail in the model-processing pass (dangling $ref
+    property, array property without items, allOf of a non-object) or none: rings of every length up to n with a removal to propagate."""
+    names = "ABCD"[:n]
+    R = "#/components/schemas/"
+    faults = {"dangling": {"$ref": R + "Nope"}, "array-no-items": {"type": "array"}, "allof-non-object": {"allOf": [{"$ref": R + "Word"}]}}
+    for via in ("prop", "array", "addl", "union"):
+        for targets in itertools.product(list(names) + ["none"], repeat=n):
+            for fnode in list(names) + [None]:
+                for fname, fsch in (faults.items() if fnode else [("-", None)]):
+                    comps = {"Word": {"type": "string"}}
+                    for nm, t in zip(names, targets):
+                        m = {"type": "object", "properties": {"v": {"type": "integer"}}}
+                        if t != "none":
+                            r = {"$ref": R + t}
+                            if via == "prop":
+                                m["properties"]["next"] = r
+                            elif via == "array":
+                                m["properties"]["next"] = {"type": "array", "items": r}
+                            elif via == "union":
+                                m["properties"]["next"] = {"oneOf": [r, {"type": "integer"}]}
+                            else:
+                                m["additionalProperties"] = r
+                        if nm == fnode:
+                            m["properties"]["bad"] = copy.deepcopy(fsch)
+                        comps[nm] = m
+                    paths = {"/x": {"get": {"operationId": "getX", "responses": {"200": {"description": "d", "content": {"application/json": {"schema": {"$ref": R + "A"}}}}}}}}
+                    yield f"ring:{via}:" + ",".join(f"{nm}>{t}" for nm, t in zip(names, targets)) + f":{fnode}:{fname}", gen.base_doc(comps, paths=paths)
+
+
 def _foreign_docs(tier):
     """(iv) documents of the other checks' spaces, generate only."""
     import importlib
@@ -422,6 +453,9 @@ def cases(tier):
     rg = list(_ref_graph_docs(3 if tier == "quick" else 4))
     for i in range(0, len(rg), 100):
         yield {"labels": ["reference-graphs", f"chunk={i // 100}"], "payload": {"mode": "docs", "docs": [d for _n, d in rg[i:i + 100]], "names": [n for n, _d in rg[i:i + 100]], "fail_on_warning": False, "what": "ref-graph"}}
+    sr = list(_schema_ring_docs(3 if tier == "quick" else 4))
+    for i in range(0, len(sr), 160):
+        yield {"labels": ["schema-rings", f"chunk={i // 160}"], "payload": {"mode": "docs", "docs": [d for _n, d in sr[i:i + 160]], "names": [n for n, _d in sr[i:i + 160]], "fail_on_warning": False, "what": "schema-ring"}}
     yield {"labels": ["cyclic-refs", "fail-on-warning"], "payload": {"mode": "docs", "docs": [d for _n, d in cyc], "names": [n for n, _d in cyc], "fail_on_warning": True, "what": "cycle"}}
     # YAML documents whose example / default / enum / const values are YAML-native scalars (dates, timestamps, binary, sets, .inf, .nan)
     for kind in NEST_KINDS:
